@@ -42,7 +42,7 @@ def _validate(exe, work, args, tag, R):
 def run(prop, tier, seed):
     T = TIERS[tier]
     R = vlib.Result(prop, tier, seed)
-    searchmc.run(prop, tier, R)
+    searchmc.run(prop, tier, R, seed=seed)
     exe = vlib.build_harness()
     work = vlib.workdir("mate")
     try:
